@@ -28,7 +28,8 @@
 //   - LoopAny (with LoopBody: N): the N-th loop in source order at any depth (inside if / else /
 //     blocks) as a step function.  There is no prologue: the statements on the way to the loop are
 //     only scanned for DECLARATIONS (var, :=) so that the body's variables have types, and every
-//     scalar / reference variable so declared enters as the parameter <name>_in.
+//     scalar / reference variable so declared enters as the parameter <name>_in - or, with CanonIn,
+//     var_in_<i> (i = order of declaration), so that renaming a local neither renames nor moves it.
 package main
 
 import (
@@ -425,17 +426,32 @@ func findLoopAny(body *ast.BlockStmt, n int) (*loopCtx, []ast.Stmt) {
 	return l, before
 }
 
+const keyIn = "\x00in:" // canonical name of the _in parameter of a variable (CanonIn targets)
+
+// inName: the parameter that carries the value a variable has when the iteration starts
+func (x *tr) inName(v string) string {
+	if n, ok := x.vars[keyIn+v]; ok {
+		return n
+	}
+	return v + "_in"
+}
+
 // stepOnly: the loop of a LoopAny target without a prologue: declarations on the way give the
 // types, every scalar / reference variable declared there is the parameter <name>_in
 func (x *tr) stepOnly(before []ast.Stmt) string {
 	pre := ""
+	nIn := 0
 	declare := func(name, typ string) {
 		if name == "_" {
 			return
 		}
 		x.vars[name] = typ
 		if isBasic(typ) || typ == "iface" {
-			p := x.param(name+"_in", typ)
+			if x.t.CanonIn {
+				x.vars[keyIn+name] = fmt.Sprintf("var_in_%d", nIn)
+				nIn++
+			}
+			p := x.param(x.inName(name), typ)
 			pre += "let " + cname(name) + " := " + p.coq + " in\n  "
 		}
 	}
